@@ -213,7 +213,14 @@ def simulate(
 
         # 'next_' prefix is added by the next_state function, but needs to be removed
         # because in the next period, next states are current states.
-        states = {k.removeprefix("next_"): v for k, v in states.items()}
+        # As the initial states, the next states are converted to the data type of the
+        # grid of the state (a transition function may return e.g. int8 or float32).
+        states = {
+            k.removeprefix("next_"): jnp.asarray(
+                v, dtype=model.grids[k.removeprefix("next_")].dtype
+            )
+            for k, v in states.items()
+        }
 
         logger.info("Period: %s", period)
 
